@@ -206,9 +206,16 @@ fn main() {
         if v["case"]["kind"] == "miri-c08t" {
             let tmp = std::env::temp_dir().join(format!("mlv-c08t-{}.txt", std::process::id()));
             std::fs::write(&tmp, format!("{}\n", v["case"]["input_line"].as_str().unwrap_or(""))).ok();
-            let st = std::process::Command::new("cargo")
-                .current_dir(verif_dir.join("harness"))
-                .args(["+nightly", "miri", "run", "-q", "-p", "mlv", "--bin", "mlv-miri", "--", "C08T", tmp.to_str().unwrap()])
+            let mut cmd = std::process::Command::new("cargo");
+            cmd.current_dir(verif_dir.join("harness")).args(["+nightly", "miri", "run", "-q"]);
+            if v["case"]["release"].as_bool() == Some(true) {
+                cmd.arg("--release");
+            }
+            if let Some(t) = v["case"]["target"].as_str() {
+                cmd.args(["--target", t]);
+            }
+            let st = cmd
+                .args(["-p", "mlv", "--bin", "mlv-miri", "--", "C08T", tmp.to_str().unwrap()])
                 .env("MIRIFLAGS", "-Zmiri-tree-borrows -Zmiri-disable-isolation -Zmiri-no-extra-rounding-error")
                 .env("CARGO_TARGET_DIR", verif_dir.join("build").join("miri"))
                 .env("CARGO_NET_OFFLINE", "true")
